@@ -418,6 +418,7 @@ class World(BaseWorld):
         if fn is None:
             raise HarnessError("unknown op %r" % op["op"])
         W.MON.fired.clear()
+        self.lib_raised = False
         if op.get("interrupt_at"):
             # F5: the call is interrupted at an arbitrary line inside the library; whatever it
             # left behind, the same call made again right afterwards must give the right answer
@@ -466,6 +467,7 @@ class World(BaseWorld):
         try:
             tkc = c.to_tk()
         except NotImplementedError:
+            self.lib_raised = True
             self.note("export_refused")
             return "refused"
         except Exception as err:
